@@ -319,3 +319,19 @@ Definition src2_artifact2destination (b64decode : pyval -> pyval) (int_base : py
    | BExc n_20 => (PExc n_20)
    | BErr => PErr
    end))))).
+
+(* saml2/mdstore.py:MetadataStore.construct_source_id, lines 1756-1760 *)
+Definition src2_store_construct_source_id (md_csi : pyval -> pyval) (v_self : pyval) : pyval :=
+  let v_res := PErr in
+  (let v_res := (PObj []) in
+   (py_bind (p2_iter_check (p2_values (p2_attr v_self "metadata"))) (fun it_2 =>
+   (match pyfor2 (py_iter2 it_2) [v_res] (fun st_3 x_4 => match st_3 with [v_res] =>
+    (let v__md := x_4 in
+    (py_bindS (fun n_7 => (ExcS n_7 [v_res])) (p2_update v_res (md_csi v__md)) (fun v_res =>
+    (NextS [v_res]))))
+   | _ => RetS PErr end) with
+   | NextS st_3 => match st_3 with [v_res] => v_res | _ => PErr end
+   | BrkS _ => PErr
+   | RetS r_5 => r_5
+   | ExcS n_6 st_3 => match st_3 with [v_res] => (PExc n_6) | _ => PErr end
+   end)))).
